@@ -116,9 +116,6 @@ Qed.
 Lemma u64_small x : x < 18446744073709551616 -> u64 x = x.
 Proof. intros H. unfold u64. apply N.mod_small. assumption. Qed.
 
-Lemma pow2_7 i : 2 ^ (7 * (i + 1)) = 2 ^ (7 * i) * 128.
-Proof. replace (7 * (i + 1)) with (7 * i + 7) by lia. rewrite N.pow_add_r. reflexivity. Qed.
-
 Lemma mul_bound64 a p : a < 256 -> p <= 2097152 -> a * p < 18446744073709551616.
 Proof. intros; nia. Qed.
 
@@ -126,60 +123,65 @@ Lemma lt_pow_step x a p : x < p -> a < 128 -> x + a * p < p * 128.
 Proof. intros; nia. Qed.
 
 (* the loop of binary.Uvarint agrees with the 2.2.3 algorithm as long as at most 4 bytes are looked at *)
-Lemma uvarint_loop_some fuel : forall buf i x v k rest,
-  i + N.of_nat fuel <= 4 -> x < 2 ^ (7 * i) ->
-  remlen fuel (2 ^ (7 * i)) buf = Some (v, k, rest) ->
-  uvarint_loop buf i x (7 * i) = UvOk (x + v) (i + k) /\ x + v < 2 ^ (7 * (i + k)) /\ 1 <= k /\ k <= N.of_nat fuel
+Lemma pow2_s7 s : 2 ^ (s + 7) = 2 ^ s * 128.
+Proof. rewrite N.pow_add_r. reflexivity. Qed.
+
+Lemma uvarint_loop_some fuel : forall buf i x s p v k rest,
+  s = 7 * i -> p = 2 ^ s ->
+  i + N.of_nat fuel <= 4 -> x < p ->
+  remlen fuel p buf = Some (v, k, rest) ->
+  uvarint_loop buf i x s = UvOk (x + v) (i + k) /\ x + v < p * 128 ^ k /\ 1 <= k /\ k <= N.of_nat fuel
   /\ rest = skipn (N.to_nat k) buf /\ k <= len buf.
 Proof.
-  induction fuel as [| fuel IH]; intros buf i x v k rest Hi Hx Hr.
+  induction fuel as [| fuel IH]; intros buf i x s p v k rest Hs Hpp Hi Hx Hr.
   - discriminate.
   - destruct buf as [| b r]; [discriminate |].
     cbn [remlen] in Hr. cbn [uvarint_loop].
     destruct (i =? 10) eqn:E10; [lia |].
     change (Byte.to_N b) with (b2n b) in Hr.
     pose proof (b2n_lt b) as Hb.
-    assert (Hp : 2 ^ (7 * i) <= 2 ^ 21) by (apply N.pow_le_mono_r; lia).
-    change (2 ^ 21) with 2097152 in Hp.
+    assert (Hp : p <= 2097152).
+    { subst p. change 2097152 with (2 ^ 21). apply N.pow_le_mono_r; lia. }
     destruct (b2n b <? 128) eqn:E128.
     + injection Hr as <- <- <-.
       destruct ((i =? 9) && (1 <? b2n b)) eqn:E9; [lia |].
-      rewrite N.shiftl_mul_pow2. rewrite u64_small by (apply mul_bound64; assumption).
-      rewrite <- N.shiftl_mul_pow2. rewrite lor_shiftl_add by assumption.
+      rewrite N.shiftl_mul_pow2. rewrite <- Hpp. rewrite u64_small by (apply mul_bound64; assumption).
+      rewrite Hpp. rewrite <- N.shiftl_mul_pow2. rewrite lor_shiftl_add by (rewrite <- Hpp; assumption).
+      rewrite <- Hpp.
       rewrite len_cons. repeat split; try lia.
-      rewrite pow2_7. apply lt_pow_step; [assumption | lia].
-    + destruct (remlen fuel (2 ^ (7 * i) * 128) r) as [[[v' k'] rest'] |] eqn:Er; [| discriminate].
+      change (128 ^ 1) with 128. apply lt_pow_step; [assumption | lia].
+    + destruct (remlen fuel (p * 128) r) as [[[v' k'] rest'] |] eqn:Er; [| discriminate].
       injection Hr as <- <- <-.
-      rewrite <- pow2_7 in Er.
       assert (Hland : N.land (b2n b) 127 = b2n b - 128).
       { change 127 with (N.ones 7). rewrite N.land_ones. change (2 ^ 7) with 128. lia. }
-      rewrite Hland. rewrite N.shiftl_mul_pow2. rewrite u64_small by (apply mul_bound64; [lia | assumption]).
-      rewrite <- N.shiftl_mul_pow2. rewrite lor_shiftl_add by assumption.
-      replace (7 * i + 7) with (7 * (i + 1)) by lia.
-      specialize (IH r (i + 1) (x + (b2n b - 128) * 2 ^ (7 * i)) v' k' rest').
-      destruct IH as (H1 & H2 & H3 & H4 & H5 & H6); [lia | rewrite pow2_7; apply lt_pow_step; [assumption | lia] | assumption |].
+      rewrite Hland. rewrite N.shiftl_mul_pow2. rewrite <- Hpp.
+      rewrite u64_small by (apply mul_bound64; [lia | assumption]).
+      rewrite Hpp. rewrite <- N.shiftl_mul_pow2. rewrite lor_shiftl_add by (rewrite <- Hpp; assumption).
+      rewrite <- Hpp.
+      specialize (IH r (i + 1) (x + (b2n b - 128) * p) (s + 7) (p * 128) v' k' rest').
+      destruct IH as (H1 & H2 & H3 & H4 & H5 & H6);
+        [lia | subst p; apply pow2_s7 | lia | apply lt_pow_step; [assumption | lia] | assumption |].
       rewrite H1. rewrite len_cons. repeat split; try lia.
       * f_equal; lia.
-      * replace (i + (k' + 1)) with (i + 1 + k') by lia. lia.
+      * rewrite N.pow_add_r. change (128 ^ 1) with 128. lia.
       * subst rest'. replace (N.to_nat (k' + 1)) with (S (N.to_nat k')) by lia. reflexivity.
 Qed.
 
-Lemma uvarint_loop_none fuel : forall buf i x,
+Lemma uvarint_loop_none fuel : forall buf i x s p,
+  s = 7 * i -> p = 2 ^ s ->
   i + N.of_nat fuel <= 4 -> (length buf <= fuel)%nat ->
-  remlen fuel (2 ^ (7 * i)) buf = None ->
-  uvarint_loop buf i x (7 * i) = UvShort.
+  remlen fuel p buf = None ->
+  uvarint_loop buf i x s = UvShort.
 Proof.
-  induction fuel as [| fuel IH]; intros buf i x Hi Hl Hr.
+  induction fuel as [| fuel IH]; intros buf i x s p Hs Hpp Hi Hl Hr.
   - destruct buf; [reflexivity | cbn in Hl; lia].
   - destruct buf as [| b r]; [reflexivity |].
     cbn [remlen] in Hr. cbn [uvarint_loop].
     destruct (i =? 10) eqn:E10; [lia |].
     change (Byte.to_N b) with (b2n b) in Hr.
     destruct (b2n b <? 128) eqn:E128; [discriminate |].
-    destruct (remlen fuel (2 ^ (7 * i) * 128) r) as [[[v' k'] rest'] |] eqn:Er; [discriminate |].
-    rewrite <- pow2_7 in Er.
-    replace (7 * i + 7) with (7 * (i + 1)) by lia.
-    apply IH; [lia | cbn in Hl; lia | assumption].
+    destruct (remlen fuel (p * 128) r) as [[[v' k'] rest'] |] eqn:Er; [discriminate |].
+    apply (IH r (i + 1) _ (s + 7) (p * 128)); [lia | subst p; apply pow2_s7 | lia | cbn in Hl; lia | assumption].
 Qed.
 
 (* remlen looks at no more than `fuel` bytes *)
@@ -233,9 +235,10 @@ Proof.
   pose proof (remlen_firstn 4 1 buf) as Hf.
   unfold uvarint.
   destruct (remlen 4 1 buf) as [[[v k] rest] |] eqn:Er.
-  - destruct (uvarint_loop_some 4 (firstn 4 buf) 0 0 v k _) as (H1 & _); [lia | cbn; lia | exact Hf |].
-    change (7 * 0) with 0 in H1. rewrite H1. f_equal.
-  - rewrite (uvarint_loop_none 4 (firstn 4 buf) 0 0); [reflexivity | lia | | exact Hf].
+  - destruct (uvarint_loop_some 4 (firstn 4 buf) 0 0 0 1 v k _) as (H1 & _);
+      [reflexivity | reflexivity | lia | lia | exact Hf |].
+    rewrite H1. f_equal.
+  - rewrite (uvarint_loop_none 4 (firstn 4 buf) 0 0 0 1); [reflexivity | reflexivity | reflexivity | lia | | exact Hf].
     rewrite firstn_length. lia.
 Qed.
 
